@@ -12,7 +12,7 @@ import (
 func init() {
 	register(&propInfo{
 		ID:          "C04",
-		Explanation: "Path, origin and call-graph analysis of everything that can cause a handler execution: (R04.1) the client re-sends a request only on a path where the method's retry flag is known true, that flag is exactly `retry tag == \"true\"` (likewise notify), and the retry decision compares the wire error's code with the temporary-connection code; (R04.2) the request writer is only ever given the request just received from the request queue or a locally built id-less built-in notification; (R04.3) nothing reachable from the in-flight failer, the sink closer or the redial path writes a request (in-flight requests are failed, never re-queued); (R04.4) notifications: no id is minted on the notify branch, the accept arm never registers an id-less request, the server gives it a discarding writer and emits no success reply; (R04.5) each inbound frame is dispatched once, and each call is handed to the dispatcher exactly once, on its own goroutine; (R04.6) in the dispatcher the user call has a single site outside any loop and dominates the success reply; (R04.7) the HTTP transport uses a non-replayable request (POST, no idempotency-key header), so net/http never re-sends it by itself; (R04.8) frames are decoded into fresh memory (a recycled buffer would make one handler run with another call's params). (R04.9) every proxy field gets a call descriptor allocated for it. (R04.10) no rejection before the handler depends on the request's id; (R04.11) the HTTP exchange is performed inside the call. (R04.12) the transport function hands the call's request to the connection loop once. (R04.13) the HTTP transport performs one exchange per call.",
+		Explanation: "Path, origin and call-graph analysis of everything that can cause a handler execution: (R04.1) the client re-sends a request only on a path where the method's retry flag is known true, that flag is exactly `retry tag == \"true\"` (likewise notify), and the retry decision compares the wire error's code with the temporary-connection code; (R04.2) the request writer is only ever given the request just received from the request queue or a locally built id-less built-in notification; (R04.3) nothing reachable from the in-flight failer, the sink closer or the redial path writes a request (in-flight requests are failed, never re-queued); (R04.4) notifications: no id is minted on the notify branch, the accept arm never registers an id-less request, the server gives it a discarding writer and emits no success reply; (R04.5) each inbound frame is dispatched once, and each call is handed to the dispatcher exactly once, on its own goroutine; (R04.6) in the dispatcher the user call has a single site outside any loop and dominates the success reply; (R04.7) the HTTP transport uses a non-replayable request (POST, no idempotency-key header), so net/http never re-sends it by itself; (R04.8) frames are decoded into fresh memory (a recycled buffer would make one handler run with another call's params). (R04.9) every proxy field gets a call descriptor allocated for it. (R04.10) no rejection before the handler depends on the request's id; (R04.11) the HTTP exchange is performed inside the call. (R04.12) the transport function hands the call's request to the connection loop once. (R04.13) the HTTP transport performs one exchange per call. (R04.14) in the executor-side function that starts the dispatcher every path starts it, except where no handler is configured.",
 		NotDecided:  "Executions counted under real faults and schedules; behaviour of intermediaries; net/http internals beyond its documented replay rule.",
 		Assumptions: []string{"net/http replays a request on a dropped keep-alive connection only if it is idempotent (GET/HEAD/OPTIONS/TRACE) or carries an (X-)Idempotency-Key header"},
 		Run:         runC04,
@@ -151,6 +151,8 @@ func runC04(c *Ctx) {
 	}
 	c.ruleOpt("R04.13", "the HTTP transport performs one exchange per call: after (*http.Client).Do no second Do is reachable inside the transport function (re-sending is decided only by the tagged retry loop)")
 	c.httpExchangeOnce("R04.13")
+	c.rule("R04.14", "every call or notification frame taken by the frame executor reaches the dispatcher: in the function that starts the dispatcher, every path from entry to return starts it, except where no handler is configured (a frame answered 'busy' or dropped under load makes a notification run zero times on a healthy connection)")
+	c.everyCallFrameDispatched("R04.14")
 	c.rule("R04.12", "the transport function hands the call's request to the connection loop once (re-sending is decided only by the tagged retry loop)")
 	c.enqueuedOnce("R04.12")
 	c.rule("R04.9", "every proxy field gets a call descriptor of its own (its retry / notify flags are not shared with other fields)")
@@ -922,5 +924,89 @@ func (c *Ctx) httpExchangeOnce(rule string) {
 		} else {
 			c.ok(rule, construct, c.ipos(dos[0]), "no second Do reachable before the transport function returns")
 		}
+	}
+}
+
+// everyCallFrameDispatched: R04.14. A notification carries no id: if the frame is not handed to the
+// dispatcher nobody will ever know. In the executor-side function that starts the dispatcher (a go
+// statement or call whose cone contains the dispatcher invocation) every path from the entry to a return
+// therefore passes that start; the one excused path is the test "no handler configured" (the handler field
+// is nil), which answers method-not-found. A load-shedding branch (non-blocking slot acquisition, queue
+// full) that replies — into the discarding writer of a notification — and returns is reported.
+func (c *Ctx) everyCallFrameDispatched(rule string) {
+	p, r := c.P, c.R
+	if r.FnExec == nil {
+		c.und(rule, "role:FN_exec", "-", "frame executor not resolved")
+		return
+	}
+	invs := c.dispInvokes()
+	n := 0
+	seen := map[*ssa.Function]bool{}
+	for _, inv := range invs {
+		starter := outermost(inv.Parent())
+		if seen[starter] || !p.syncReachable(r.FnExec, starter) || starter == r.FnExec {
+			continue
+		}
+		seen[starter] = true
+		n++
+		starts := func(in ssa.Instruction) bool {
+			if in == inv {
+				return true
+			}
+			switch x := in.(type) {
+			case *ssa.Go:
+				for _, g := range c.funcsOf(x.Common().Value) {
+					if p.inCone(g, inv) {
+						return true
+					}
+				}
+				if g := staticCallee(x); g != nil && p.allFns[g] && p.inCone(g, inv) {
+					return true
+				}
+				if x.Common().IsInvoke() && x.Common().Value.Type() == types.Type(r.IDisp) {
+					return true
+				}
+			case *ssa.Call:
+				if g := p.syncCallee(x); g != nil && p.allFns[g] && g != starter && p.inCone(g, inv) {
+					return true
+				}
+			}
+			return false
+		}
+		noHandler := func(b *ssa.BasicBlock, k int) bool {
+			iff, ok := b.Instrs[len(b.Instrs)-1].(*ssa.If)
+			if !ok || r.FHandler == nil {
+				return true
+			}
+			bo, ok := curFacts.aliasOf(iff.Cond).(*ssa.BinOp)
+			if !ok || (bo.Op != token.EQL && bo.Op != token.NEQ) {
+				return true
+			}
+			var other ssa.Value
+			if isNilConst(bo.Y) {
+				other = bo.X
+			} else if isNilConst(bo.X) {
+				other = bo.Y
+			} else {
+				return true
+			}
+			if !isLoadOf(other, r.FHandler) {
+				return true
+			}
+			isNil := (bo.Op == token.EQL) == (k == 0)
+			return !isNil // the "handler == nil" side is excused
+		}
+		construct := fmt.Sprintf("%s: every frame starts the dispatcher", fname(starter))
+		s := newIPSearch(isReturn, starts)
+		s.edgeOK = noHandler
+		s.seen[fmt.Sprintf("%p|", starter.Blocks[0])] = true
+		if s.scan(starter.Blocks[0], 0, nil) {
+			c.bad(rule, construct, c.ipos(s.found), "a path returns without handing the frame to the dispatcher although a handler is configured (load shedding, a full slot table): a notification on a healthy connection then runs zero times, and its error reply goes to the discarding writer")
+		} else {
+			c.ok(rule, construct, p.pos(starter.Pos()), "every path starts the dispatcher, except 'no handler configured'")
+		}
+	}
+	if n == 0 {
+		c.und(rule, "dispatcher start on the executor side", "-", "no function reachable from the frame executor starts the dispatcher")
 	}
 }
